@@ -444,4 +444,41 @@ Proof.
     exact (A n k c Hs).
 Qed.
 
+(* ---- power loss at any point of a history that keeps the fsync defaults and deletes nothing ---- *)
+Definition fsync_on (o : opn) : bool :=
+  match o with
+  | OPack _ _ fs _ | OTopack _ _ _ _ fs | OImport _ _ _ fs => fs
+  | ODelete _ => false
+  | _ => true
+  end.
+
+Lemma step_always_pl s o : Inv (fst s) -> Inv (power_loss (fst s)) -> pending (snd s) = [] -> pre (fst s) o -> fsync_on o = true ->
+  always (fun w' => Inv (power_loss w')) s (prog (fst s) o).
+Proof.
+  intros HI HP Hp Hpre Hf. destruct s as [w l]. cbn [fst snd] in *. destruct o; cbn [prog pre fsync_on] in *; try discriminate.
+  - intros m. exact (proj2 (proj2 (add_loose_crash_safe H inflate H_inj w l n chunks m HI)) HP).
+  - subst fs. destruct Hpre as (A & B & C). intros m.
+    exact (proj1 (proj2 (proj2 (pack_one_always H inflate H_inj w l id objs true clean HI Hp A B C m)) eq_refl HP)).
+  - subst fs. intros m. exact (proj1 (proj2 (proj2 (add_to_pack_always H inflate H_inj w l id objs nh twice true HI Hp Hpre m)) eq_refl HP)).
+  - subst fs. intros m. exact (proj1 (proj2 (proj2 (import_always H inflate H_inj w l bs nh twice true HI Hp Hpre m)) eq_refl HP)).
+  - intros m. exact (proj1 (proj2 (proj2 (clean_always H inflate w l true vacuum order HI Hp m)) eq_refl HP)).
+  - destruct Hpre as (Hid & Hno & [(Hne & Hobjs & Hcov)|(He & ->)]).
+    + intros m. exact (proj1 (proj2 (proj2 (repack_always H inflate H_inj w id objs HI Hid Hno Hobjs Hcov l true Hp Hne m)) eq_refl HP)).
+    + intros m. exact (proj1 (proj2 (proj2 (repack_empty_always H inflate H_inj w l id true HI He m)) eq_refl HP)).
+Qed.
+
+Theorem history_power_safe : forall ops s,
+  Inv (fst s) -> Inv (power_loss (fst s)) -> pending (snd s) = [] -> pre_hist s ops -> forallb fsync_on ops = true ->
+  forall n, Inv (power_loss (crash (run_events s (firstn n (hist_trace s ops))))).
+Proof.
+  induction ops as [|o t IH]; intros s HI HP Hp Hpre Hf n.
+  - cbn [hist_trace]. rewrite firstn_nil. exact HP.
+  - destruct Hpre as [Ho Ht]. cbn [forallb] in Hf. apply andb_prop in Hf as [Hfo Hft]. cbn [hist_trace].
+    destruct (step_refines s o HI Hp Ho) as (I' & P' & _).
+    pose proof (step_always_pl s o HI HP Hp Ho Hfo) as A1.
+    assert (HP' : Inv (power_loss (fst (run_events s (prog (fst s) o))))).
+    { pose proof (A1 (length (prog (fst s) o))) as Aend. rewrite firstn_all in Aend. exact Aend. }
+    exact (always_app (fun w' => Inv (power_loss w')) s _ _ A1 (IH _ I' HP' P' Ht Hft) n).
+Qed.
+
 End Hist.
